@@ -17,6 +17,7 @@ from symx.core import SymReal, R, rv, frac, prove, model_value
 
 from pySDC.core.base_transfer import BaseTransfer
 from pySDC.core.collocation import CollBase
+from pySDC.helpers import transfer_helper as th
 from pySDC.implementations.datatype_classes.mesh import mesh, imex_mesh
 from pySDC.implementations.transfer_classes.TransferMesh import mesh_to_mesh
 
@@ -27,6 +28,7 @@ QUAD_TYPES = ['RADAU-RIGHT', 'LOBATTO', 'GAUSS', 'RADAU-LEFT']
 
 
 def describe(rep):
+    rep.func(th.restriction_matrix_1d, th.interpolation_matrix_1d, th.next_neighbors, th.next_neighbors_periodic, th.continue_periodic_array, th.border_padding)
     import pySDC.helpers.transfer_helper as th
     from pySDC.implementations.transfer_classes.TransferMesh_NoCoarse import mesh_to_mesh as nocoarse
 
@@ -69,6 +71,12 @@ def tasks(tier, seed):
     if not quick:
         T.append(('space', 4, 2, 2, True, True, 3, 'mesh'))
         T.append(('space', 3, 1, 2, False, True, 3, 'mesh'))
+    for nf, nc in ((8, 4), (7, 3), (9, 4), (16, 8)):
+        for k in ((2, 4) if quick else (2, 4, 6)):
+            for periodic in (False, True):
+                for shifted in (False, True):
+                    if k < nf:
+                        T.append(('restr', nf, nc, k, periodic, shifted))
     T.append(('nocoarse',))
     return T
 
@@ -78,6 +86,8 @@ def run_task(rep, task):
         time_case(rep, *task[1:])
     elif task[0] == 'space':
         space_case(rep, *task[1:])
+    elif task[0] == 'restr':
+        restr_case(rep, *task[1:])
     elif task[0] == 'nocoarse':
         nocoarse_case(rep)
 
@@ -317,6 +327,73 @@ def space_triage(rep, name, nf, nc, order, periodic, nested, dim, Pd, W1, clause
         rep.unreproduced(f'{name}:{clause}', float(dev))
 
 
+def restr_oracle(fine, p, k, periodic):
+    """exact weights of the value at p of the polynomial of degree k-1 through the k nearest fine points (periodic images / the mirror-padded boundary
+    point, which carries the value 0, included); None if the k nearest points are not unique"""
+    xf = [Fraction(float(x)) for x in fine]
+    p = Fraction(float(p))
+    if periodic:
+        pts = [(x + s_, j) for s_ in (-1, 0, 1) for j, x in enumerate(xf)]
+    else:
+        pts = [(x, j) for j, x in enumerate(xf)] + [(2 * xf[0] - xf[1], None), (2 * xf[-1] - xf[-2], None)]
+    srt = sorted(pts, key=lambda q: abs(q[0] - p))
+    if len(srt) > k and abs(srt[k][0] - p) == abs(srt[k - 1][0] - p) and abs(srt[0][0] - p) != 0:
+        return None
+    near = srt[:k]
+    hit = [q for q in near if q[0] == p]
+    if hit:
+        return {hit[0][1]: Fraction(1)} if hit[0][1] is not None else {}
+    w = {}
+    for (xk, jk) in near:
+        lk = Fraction(1)
+        for (xm, jm) in near:
+            if xm != xk:
+                lk *= (p - xm) / (xk - xm)
+        if jk is not None:
+            w[jk] = w.get(jk, Fraction(0)) + lk
+    return w
+
+
+def restr_case(rep, nf, nc, k, periodic, shifted):
+    """transfer_helper.restriction_matrix_1d (named by the property, not used by the shipped transfer classes): each restricted value is the value of the
+    degree k-1 polynomial through the k nearest fine points"""
+    name = f'restr/{nf}-{nc}/o{k}/{"periodic" if periodic else "dirichlet"}/{"shifted" if shifted else "nested"}'
+    if periodic:
+        fine = np.array([i / nf for i in range(nf)])
+        coarse = np.array([j / nc for j in range(nc)])
+    else:
+        fine = np.array([(i + 1) / (nf + 1) for i in range(nf)])
+        coarse = np.array([(j + 1) / (nc + 1) for j in range(nc)])
+    if shifted:
+        coarse = coarse + 0.3 * (fine[1] - fine[0])  # coarse points strictly between fine points
+        coarse = coarse[coarse < (1.0 if periodic else fine[-1])]
+    M = np.asarray(th.restriction_matrix_1d(fine, coarse, k=k, periodic=periodic, pad=1).toarray(), dtype=float)
+    u = [z3.Real(f'u{j}') for j in range(nf)]
+    tol = rv(Fraction(1, 10**10))
+    skipped = 0
+    for i, pt in enumerate(coarse):
+        w = restr_oracle(fine, pt, k, periodic)
+        if w is None:
+            skipped += 1
+            continue
+        got = sum(rv(M[i, j]) * u[j] for j in range(nf) if M[i, j] != 0) if np.any(M[i] != 0) else rv(0)
+        ex = sum(rv(w[j]) * u[j] for j in w) if w else rv(0)
+        res, m = prove(z3.And(got - ex <= tol, ex - got <= tol), box(u), name=f'{name}/row{i}:lagrange')
+        rep.ob(f'{name}/row{i}:lagrange', res)
+        if res == 'sat':
+            rep.replayed += 1
+            uv = np.array([float(model_value(m, v)) for v in u])
+            dev = abs(float(M[i] @ uv) - float(sum(float(w[j]) * uv[j] for j in w)))
+            if dev > 1e-10:
+                rep.violation(f'{PID}/restriction-matrix/{"periodic" if periodic else "dirichlet"}/lagrange', f'{name}: restricted value at coarse point {i} ({pt}) is {float(M[i] @ uv)!r}, Lagrange interpolation through '
+                              f'the {k} nearest fine points gives {float(sum(float(w[j]) * uv[j] for j in w))!r} for data {uv.tolist()}',
+                              {'task': ['restr', nf, nc, k, periodic, shifted], 'row': i, 'u': uv.tolist(), 'deviation': dev})
+                return
+            rep.unreproduced(f'{name}/row{i}', dev)
+    rep.extra['restr_rows_skipped_for_ties'] = rep.extra.get('restr_rows_skipped_for_ties', 0) + skipped
+    rep.sample({'case': name, 'free': 'fine grid data in the unit box'}, limit=2)
+
+
 def nocoarse_case(rep):
     """identity transfers: the value is copied, the argument is not aliased, type preserved (executed on symbolic data)"""
     from pySDC.implementations.transfer_classes.TransferMesh_NoCoarse import mesh_to_mesh as nocoarse
@@ -343,6 +420,19 @@ def replay(path):
         print('observed row', row.tolist())
         print('expected row', d['expected_row'])
         bad = np.abs(row - np.array(d['expected_row'])).max() > 1e-10
+    elif t[0] == 'restr':
+        _, nf, nc, k, periodic, shifted = t
+        fine = np.array([i / nf for i in range(nf)]) if periodic else np.array([(i + 1) / (nf + 1) for i in range(nf)])
+        coarse = np.array([j / nc for j in range(nc)]) if periodic else np.array([(j + 1) / (nc + 1) for j in range(nc)])
+        if shifted:
+            coarse = coarse + 0.3 * (fine[1] - fine[0])
+            coarse = coarse[coarse < (1.0 if periodic else fine[-1])]
+        M = np.asarray(th.restriction_matrix_1d(fine, coarse, k=k, periodic=periodic, pad=1).toarray(), dtype=float)
+        w = restr_oracle(fine, coarse[d['row']], k, periodic)
+        uv = np.array(d['u'])
+        got, ex = float(M[d['row']] @ uv), float(sum(float(w[j]) * uv[j] for j in w))
+        print('restricted value', got, 'Lagrange value', ex)
+        bad = abs(got - ex) > 1e-10
     else:
         print(d)
         bad = True
